@@ -50,6 +50,8 @@ ASSUMPTIONS = [
     'str.lower()/repr() modelled on the ASCII range plus printable non-ASCII letters; str.strip() on all Unicode spaces',
     'the informational commands (.help .explain .tables .describe .errors .parse .history .clear .reload) are '
     'modelled only as "state unchanged"; the harness checks .tables/.describe/.errors/.parse/.reload output itself',
+    '`.reload` of a rewritten ledger file = the session continues in the World of the new file (facts and rendering '
+    'computed by the harness on a fresh connection over that file), settings carried over',
     'the default CLOSE date is applied to SELECT statements only (what BQLShell.parse does); BALANCES/JOURNAL/PRINT '
     'named queries run unchanged',
 ]
@@ -759,7 +761,40 @@ RUN_OK = ['.run food', '.run fromq', '.run early', '.run closed', '.run openonly
           '.run my-query', '.run *', '.run sub', '.run zlast']
 
 
+POS_QUERIES = ["SELECT account, sum(position) AS bal WHERE account ~ 'Assets' GROUP BY account ORDER BY account",
+               "SELECT date, account, position", "BALANCES", "SELECT account, units(sum(position)) AS u GROUP BY 1",
+               "JOURNAL 'Assets:Coins'", "JOURNAL 'Assets:Checking'", ".run coins", ".run later", ".run food", ".run *",
+               "SELECT account, sum(position) AS total GROUP BY account", "PRINT FROM year = 2020"]
+
+
+def gen_reload_session(rng):
+    """The ledger file is rewritten (other precisions, other named queries) and reloaded during the session."""
+    cur = rng.choice(['P1', 'P2', 'P1', 'P1', 'A', 'B'])
+    case = {'ledger': cur, 'format': rng.choice(['text', 'csv']), 'numberify': rng.random() < 0.5,
+            'same_stdout': rng.random() < 0.15, 'quiet': QUIET_KW and rng.random() < 0.2}
+    lines = []
+    if rng.random() < 0.4:
+        lines.append('.set numberify ' + rng.choice(['1', 'on', '0']))
+    for _ in range(rng.randint(0, 2)):
+        lines.append(rng.choice(POS_QUERIES))
+    for _ in range(rng.randint(1, 2)):
+        new = rng.choice([k for k in ('P1', 'P2', 'P2', 'A', 'B') if k != cur])
+        lines.append(REWRITE + new)
+        if rng.random() < 0.3:
+            lines.append(rng.choice(POS_QUERIES))      # file changed, not reloaded yet: still the old ledger
+        lines.append(rng.choice(['.reload', '.reload', '.reload ', ' .reload']))
+        cur = new
+        if rng.random() < 0.3:
+            lines.append('.set numberify ' + rng.choice(['1', 'yes', '0', 'off']))
+        for _ in range(rng.randint(1, 2)):
+            lines.append(rng.choice(POS_QUERIES))
+    case['lines'] = lines[:12]
+    return case
+
+
 def gen_session(rng, maxlen=12):
+    if rng.random() < 0.2:
+        return gen_reload_session(rng)
     n = rng.randint(1, maxlen)
     lines = []
     if rng.random() < 0.5:
@@ -807,6 +842,12 @@ CORPUS = [
                'SELECT date, payee, account, position, balance', '.set expand 1', '.set spaced 1', '.set nullvalue ~',
                'SELECT date, payee, account, position, balance', '.set numberify 1',
                'SELECT account, sum(position) AS total GROUP BY account', '.run fromq']},
+    {'ledger': 'P1', 'format': 'csv', 'numberify': True,
+     'lines': [POS_QUERIES[0], REWRITE + 'P2', POS_QUERIES[0], '.reload', POS_QUERIES[0], '.run later', '.set numberify 0',
+               POS_QUERIES[0]]},
+    {'ledger': 'P2', 'format': 'text', 'numberify': False,
+     'lines': ['.run later', '.set numberify on', 'BALANCES', REWRITE + 'P1', '.reload', 'BALANCES', '.run later', '.run coins',
+               REWRITE + 'A', '.reload', '.run food', 'BALANCES']},
     {'ledger': 'B', 'format': 'text', 'numberify': False, 'same_stdout': True,
      'lines': ['.run', '.run *', '.run x', "SELECT account WHERE account = 'Nope'", '.set narrow 0',
                "SELECT 1 AS a_rather_long_header, 'x' AS s", '.set spaced y', 'JOURNAL \'Assets:Checking\'', 'EOF']},
@@ -1233,7 +1274,7 @@ def run(tier, rng):
     for case, m in zip(cases, models):
         changed = False
         prev = None
-        for line, (events, stop, state) in zip(case['lines'], m):
+        for line, (events, stop, state) in zip(real_lines(case), m):
             steps += 1
             st = decode_state(state)
             if prev is not None and st != prev:
@@ -1272,7 +1313,9 @@ def run(tier, rng):
         'rule': 'random sessions (<=12 lines, one PRNG) over .set (0-4 arguments, valid/invalid values per type, quoting, '
                 'non-field attribute names, dot-less and upper-case spellings), typed SELECT/BALANCES/JOURNAL/PRINT with '
                 'case/whitespace/semicolon variants, garbage, .run NAME/*/listing on 3 generated ledgers (with/without '
-                'named queries and load errors), informational and unknown commands; after every step all settings '
+                'named queries and load errors), informational and unknown commands; sessions in which the ledger file is '
+                'rewritten (display precisions and named queries change) and reloaded, numberify on and off, the expected '
+                'text rendered through the API on a fresh connection over the rewritten file; after every step all settings '
                 '(vars(settings)) and the text on outfile/stdout/stderr, exception and return value are compared; '
                 'non-trivial = distinct session in which a setting changed and a statement was typed; plus a grid: every '
                 'field x every listed value (assign, echo, list). CLI: random '
@@ -1282,7 +1325,8 @@ def run(tier, rng):
                    + [show_cli(c) for c in cli_cases[2:5]],
         'grid_sessions(field x value)': len(grid),
         'traces_validated_against_impl': len(cases) + len(cli_cases),
-        'sessions': len(cases), 'session_steps': steps, 'cli_runs': len(cli_cases), 'pure_helper_cases': npure,
+        'sessions': len(cases), 'sessions_with_ledger_rewrite_and_reload': sum(
+            any(l.startswith(REWRITE) for l in c['lines']) for c in cases), 'session_steps': steps, 'cli_runs': len(cli_cases), 'pure_helper_cases': npure,
         'event_histogram': line_kinds, 'set_arity_histogram': set_arity, 'format_in_effect_histogram': fmt_hist,
         'render_text_flag_histogram(expand,boxed,spaced,narrow,unicode)': flags,
         'dispatch_histogram': hist,
